@@ -109,8 +109,21 @@ def _alarm(signum, frame):
     raise CaseTimeout()
 
 
+IMPL_BUDGET = {"quick": 20 * 60, "thorough": 120 * 60}      # seconds of wall time for running all cases on the implementation; what is left over is reported as not run
+_DEADLINE = [None]
+_FAILS = multiprocessing.Value("i", 0)          # shared with the forked workers: once several hundred cases have failed the rest of the cases is not run
+ENOUGH_FAILS = 400
+
+
 def _work(args):
     prop_mod, chunk = args
+    try:
+        import resource
+        soft, hard = resource.getrlimit(resource.RLIMIT_AS)
+        lim = 6 * 1024 ** 3
+        if soft == resource.RLIM_INFINITY or soft > lim: resource.setrlimit(resource.RLIMIT_AS, (lim, hard))      # an implementation that eats memory fails its case, not the machine
+    except Exception:
+        pass
     mod = _WORKER.get(prop_mod)
     if mod is None:
         mod = __import__(prop_mod, fromlist=["x"]); _WORKER[prop_mod] = mod
@@ -121,6 +134,10 @@ def _work(args):
     except ValueError:
         pass
     for case in chunk:
+        if _FAILS.value > ENOUGH_FAILS and not hasattr(mod, "classify"):        # (checks with known findings count classified cases too: no early stop there)
+            out.append(({"adapter_error": "not run: more than %d cases of this run have already failed" % ENOUGH_FAILS}, None)); continue
+        if _DEADLINE[0] is not None and time.time() > _DEADLINE[0]:
+            out.append(({"adapter_error": "not run: the time budget of this check for the implementation was used up (the implementation has become very slow)"}, None)); continue
         try:
             signal.setitimer(signal.ITIMER_REAL, CASE_TIMEOUT)
             try:
@@ -132,9 +149,24 @@ def _work(args):
         except BaseException as e:       # the adapter itself failed: reported as a broken correspondence
             obs = {"adapter_error": "%s: %s" % (type(e).__name__, e), "tb": traceback.format_exc()[-800:]}
         try:
-            verdict = mod.monitor(case, obs) if "adapter_error" not in (obs if isinstance(obs, dict) else {}) else None
+            signal.setitimer(signal.ITIMER_REAL, CASE_TIMEOUT)
+            try:
+                verdict = mod.monitor(case, obs) if "adapter_error" not in (obs if isinstance(obs, dict) else {}) else None
+            finally:
+                signal.setitimer(signal.ITIMER_REAL, 0)
+        except CaseTimeout:
+            # the oracle could not digest the observation in time (an implementation that prints / renders without end): no verdict, reported as an adapter error
+            verdict = None; obs = {"adapter_error": "the observation of this case is too large to be judged within %d s" % CASE_TIMEOUT, "head": repr(obs)[:2000]}
         except BaseException as e:
             verdict = "monitor crashed: %s: %s" % (type(e).__name__, e)
+        try:
+            if len(repr(obs)) > 30000000:
+                # an observation of this size (the implementation prints / renders without end) is not shipped around: the verdict was taken, the rest is a summary
+                obs = {"adapter_error": "the observation of this case is %d characters long (not kept)" % len(repr(obs)), "head": repr(obs)[:2000]}
+        except BaseException:
+            pass
+        if verdict is not None:
+            with _FAILS.get_lock(): _FAILS.value += 1
         out.append((obs, verdict))
     return out
 
@@ -234,7 +266,10 @@ def run_check(prop, mod, tier, seed):
     rnd = random.Random(seed)
     corpus = list(mod.corpus()) if hasattr(mod, "corpus") else []
     cases = corpus + list(mod.generate(rnd, tier))
+    _DEADLINE[0] = time.time() + IMPL_BUDGET.get(tier, 20 * 60)          # inherited by the forked workers
+    _FAILS.value = 0
     results = run_impl_parallel(prop_mod, cases)
+    _DEADLINE[0] = None
     adapter_errors = [(c, o) for c, (o, v) in zip(cases, results) if isinstance(o, dict) and "adapter_error" in o]
 
     # ---- C: correspondence
@@ -298,8 +333,8 @@ def run_check(prop, mod, tier, seed):
     def shrink(case, pred):
         if not hasattr(mod, "shrink"):
             return case
-        cur = case; improved = True; budget = 400
-        while improved and budget > 0:
+        cur = case; improved = True; budget = 400; t_end = time.time() + 180        # shrinking is a convenience: bounded in candidates and in wall time
+        while improved and budget > 0 and time.time() < t_end:
             improved = False
             try:
                 cands = list(itertools.islice(mod.shrink(cur), 2000))
@@ -307,7 +342,7 @@ def run_check(prop, mod, tier, seed):
                 cands = []          # no shrinker for this kind of case
             for cand in cands:
                 budget -= 1
-                if budget <= 0: break
+                if budget <= 0 or time.time() > t_end: break
                 try:
                     if pred(cand):
                         cur = cand; improved = True; break
